@@ -104,7 +104,17 @@ check('C05', 'Hypothesis-generated pairs of texts; metamorphic relation AST(A + 
       'Sampling only; side conditions evaluated on the separate parses.',
       'DESIGN.md 5/C05')
 
+check('C03', 'Hypothesis choice tapes decoded into model trees of CommonMark/GFM constructs with free spelling; oracle = HTML written directly from the tree, compared under the spec normaliser',
+      'hypothesis-sharded',
+      'Each tape is decoded into a tree (all block and inline constructs of the statement, depth <= 4, <= 40 blocks) whose spelling choices '
+      '(indentation, markers, padding, fences, closing #, > with/without space, lazy lines, optional blank lines) are drawn as well; the '
+      'Markdown written from it must render to the HTML written from the tree by independent code. A curated list of hand-derived pairs '
+      '(regressions of repaired defects) is enumerated too.',
+      'Sound only as far as the writer is (it writes only spellings the specification makes unambiguous; see DESIGN.md 3/G4). Seven recorded '
+      'findings are excluded by writer switches and announced as KNOWN-FINDING with hand-derived witnesses.',
+      'DESIGN.md 5/C03')
+
 _PENDING = 'check not built yet in this revision (work in progress; technique applies, see DESIGN.md section 5)'
-for _p in ['C03', 'C07', 'C09', 'C10', 'C13',
+for _p in ['C07', 'C09', 'C10', 'C13',
            'C19']:
     NOT_YET[_p] = _PENDING
